@@ -101,6 +101,7 @@ type WorkerOut struct {
 	Failure    *ReplayFile      `json:"failure,omitempty"`
 	Harness    []string         `json:"harness_errors,omitempty"`
 	TraceHashes map[string]uint64 `json:"trace_hashes,omitempty"` // determinism spot check: case hash -> result hash
+	Unconfirmed int64 `json:"unconfirmed,omitempty"` // violating runs that did not violate when re-executed from a clean process state
 }
 
 type acc struct {
